@@ -535,3 +535,7 @@ impl ProtectCallbackSender {
         })
     }
 }
+
+#[cfg(feature = "verif")]
+#[doc(hidden)]
+pub use self::state::verif_incrate as verif_state;
